@@ -187,7 +187,23 @@ def audit_imports(prop):
     return mods
 
 
-def build_and_audit(prop):
+def run_leanchecker(prop):
+    """thorough tier: replay the compiled proof modules of the property through `leanchecker`, the toolchain's independent re-checker
+    of .olean files (every declaration is re-checked by the kernel from the stored terms). Returns a list of error texts."""
+    mods = [m for m in audit_imports(prop) if ".Proofs." in m and not m.endswith("Audit")]
+    if not mods:
+        return []
+    try:
+        r = subprocess.run(["lake", "env", "leanchecker"] + mods, cwd=LEAN, capture_output=True, text=True, timeout=3000)
+    except subprocess.TimeoutExpired:
+        return ["leanchecker did not finish within 3000 s"]
+    out = (r.stdout + r.stderr).strip()
+    if r.returncode != 0 or out:
+        return [f"leanchecker rejected {mods}: rc={r.returncode} {out[-600:]}"]
+    return []
+
+
+def build_and_audit(prop, thorough=False):
     """Rebuild from the current tree and audit the theorems of `prop`.
     Only the model driver and the proof modules of THIS property are built, so that a broken
     obligation of another property (e.g. a regenerated table theorem) does not raise an alarm here.
@@ -219,8 +235,14 @@ def build_and_audit(prop):
             else:
                 requested, results, errors = run_audit(prop)
                 cache["audit"][prop] = {"requested": requested, "results": results, "errors": errors}
+        if thorough and "leanchecker" not in cache["audit"][prop] and not cache["audit"][prop]["errors"]:
+            cache["audit"][prop]["leanchecker"] = run_leanchecker(prop)
         json.dump(cache, open(stamp, "w"))
     a = cache["audit"][prop]
+    if thorough:
+        res.leanchecker = a.get("leanchecker", [])
+        for e in res.leanchecker:
+            res.failed.append(("<leanchecker>", e))
     if not res.ok:
         res.obligations = ["<model driver build>"]
         res.failed.append(("<model driver build>", "the executable model does not build: " + res.log[-800:]))
